@@ -1116,6 +1116,7 @@ func TestCheck(t *testing.T) {
 	timed("derive", func() { partDerive(run, rep) })
 	timed("sweep", func() { partSweep(run, rep, expired) })
 	timed("gc", func() { partGC(run, rep, expired) })
+	timed("many-parents", func() { partManyParents(run) })
 	if run.Quick() {
 		timed("history", func() { partHistory(run, rep, expired) })
 		timed("proof", func() { partProof(run, rep, expired) })
@@ -1613,6 +1614,9 @@ func replay(run *ev.Run, rep *reporter, d *ev.ReplayDoc) {
 	part, _ := d.Detail["part"].(string)
 	var again func() *fail
 	switch part {
+	case "many-parents":
+		partManyParents(run)
+		return
 	case "script":
 		sc := scriptFromDetail(d.Detail)
 		again = func() *fail { return runScript(sc, nil) }
